@@ -257,6 +257,7 @@ func (rm *ResponseManager) newRequest(ctx context.Context, p peer.ID, request gs
 		signals:        signals,
 		startTime:      time.Now(),
 		responseStream: responseStream,
+		subscriber:     subscriber,
 	}
 
 	// setup query for processing
@@ -376,6 +377,13 @@ func (rm *ResponseManager) startTask(task *peertask.Task, p peer.ID) queryexecut
 	}
 
 	return taskData
+}
+
+// isResponseOf tells whether the response in progress for the request ID is the one the given
+// message subscriber belongs to (and not a newer response that re-uses the ID)
+func (rm *ResponseManager) isResponseOf(requestID graphsync.RequestID, sub *subscriber) bool {
+	response, ok := rm.inProgressResponses[requestID]
+	return ok && response.subscriber == sub
 }
 
 func (rm *ResponseManager) terminateRequest(requestID graphsync.RequestID) {
